@@ -916,7 +916,7 @@ pub fn check(case: &Case, info: &mut CaseInfo) -> Result<(), Fail> {
 pub fn run(ctx: &Ctx, rep: &mut Report) {
     let (n, steps) = match ctx.tier {
         Tier::Quick => (640, 16),
-        Tier::Thorough => (3_200, 30),
+        Tier::Thorough => (12_000, 30),
     };
     run_prop(ctx, rep, "submissions", case_strategy(steps), n, 300, check);
 }
